@@ -15,18 +15,17 @@ TARGETS = [2, 3, 10, 16]
 LEVEL_TEXT = ("Coq theorems for all inputs: (1) the as-is model of the float parser (Repr::from_str_native transcribed on byte lists: sign, rfind of "
               "the scale marker, isize scale, point, hexadecimal form, digit counting, final normalisation; UBig::from_str_radix at its C07 "
               "specification) returns exactly the written value and the number of written digits on every text the documented grammar accepts "
-              "(parse_spec = the grammar read left to right); (2) the as-is model of Display (fmt_round: rounding by round_fract, digit string, "
-              "cut at the point, zero filling) prints exactly the specified text, whose rounding is spec_round (T_round over the regenerated "
-              "tables); (3) printing without options and parsing the text gives the same normalised float back, on the specification and on the "
+              "(parse_spec = the grammar read left to right), and accepts nothing else: parse_asis = Ok v <-> parse_spec = Some v for every byte string; (2) the as-is model of Display (fmt_round: rounding by round_fract, digit string, "
+              "cut at the point, zero filling) and of LowerExp/UpperExp (fmt_round_scientific incl. the renormalised carry) print exactly the "
+              "specified text, whose rounding is spec_round (T_round over the regenerated tables); (3) printing without options and parsing the text gives the same normalised float back, on the specification and on the "
               "as-is models; (4) with_precision (as-is) = specification, which errs by less than one unit of the last kept digit, at most half "
               "in the nearest modes, on the side of the mode, with a truthful Exact/Inexact flag and p digits; (5) the modelled routes of "
               "convert_base (same base, power-related bases, exact power for 0 <= e <= 38, exact long division) return the specification "
               "rounding of the exact value; the precision rule NewB^p' <= B^p < NewB^(p'+1); ilog_exact. Every implementation answer of all "
               "APIs in observe_at is decided by the extracted specifications / the contract checker.")
 LEVEL_NOTE = ("Partial: the large-exponent route of convert_base (|e| > 38, ln/exp) is not modelled; its answers are decided case by case by the "
-              "contract checker against the exact rational and it is an OPEN finding (not faithful). The reverse direction of the parser theorem "
-              "(no text outside the grammar is accepted) is only compared (malformed-text stream), not proved. LowerExp/UpperExp layout, the "
-              "short-dividend repr_div route (C03 theorem repr_div_spec) and IEEE import are compared against executable specifications, the "
+              "contract checker against the exact rational and it is an OPEN finding (not faithful). The short-dividend route is "
+              "C03's repr_div (theorems repr_div_spec / repr_div_magnitude, instantiated in C08_convert_small_neg); IEEE import is compared against the executable decoder, the "
               "as-is models of all of them agree with the implementation on every case of the run (model_fidelity). Padding (width/fill/"
               "alignment/zero flag) is outside the property: the verdict is taken on sign + body, the as-is model reproduces the padding "
               "including its deviations from core::fmt. Debug output is compared at shape level. Trusted: Coq kernel, translator "
